@@ -263,6 +263,13 @@ func vpPenaltyStub(q *qrcode) uint {
 	return p
 }
 
+// vpPenaltyFixed replaces calcPenalty where the mask choice is irrelevant: strictly increasing
+// values, so the first candidate wins and nothing forks.
+func vpPenaltyFixed(q *qrcode) uint {
+	vpPenCount++
+	return uint(vpPenCount)
+}
+
 func vpCheckSymbol(code *qrcode, v int, level ErrorCorrectionLevel, codewords []byte, scheme barcode.ColorScheme) {
 	dim := vpQRDim(v)
 	vpAssert(code.Bounds() == image.Rect(0, 0, dim, dim), "bounds are (0,0)-(17+4v,17+4v)")
@@ -395,4 +402,68 @@ func VP_QR_e2e() {
 	codewords := vpQRFinalCodewords(v, int(level), data)
 	vpCheckSymbol(code, v, level, codewords, scheme)
 	vpCover("accepted", true)
+}
+
+
+// ---------------------------------------------------------------- C15 / C16: purity, lock discipline, goroutine hygiene
+
+// nothing but the generator cache (under its lock) is written in package-level state, whatever
+// the content; the call succeeds or fails the same way when repeated; no goroutine is left behind.
+// (Pixel equality of repeated calls is checked on concrete contents in VP_QR_repeat: with the
+// penalty function stubbed to arbitrary values two calls may legitimately pick different masks.)
+func VP_QR_pure() {
+	n := vpConfig("n")
+	content := vpContent(n)
+	level := ErrorCorrectionLevel(vpConfig("level"))
+	vpTrackGlobals()
+	_, errA := Encode(content, level, Auto)
+	_, _ = Encode("HELLO WORLD 12345", H, AlphaNumeric) // unrelated call in between
+	_, errB := Encode(content, level, Auto)
+	vpAssert((errA == nil) == (errB == nil), "the same call succeeds or fails the same way every time")
+	vpAssert(vpGlobalWrites() == 0, "no package-level state is written outside the generator-polynomial cache lock")
+	vpCover("reached", true)
+}
+
+// repeated calls on concrete contents with the real penalty function and the real Reed-Solomon cache
+func VP_QR_repeat() {
+	contents := []string{"", "0123456789", "HELLO WORLD", "hello, world \xff", "12345678901234567890123456789012345678901234567890"}
+	content := contents[vpConfig("which")]
+	level := ErrorCorrectionLevel(vpConfig("level"))
+	vpTrackGlobals()
+	a, errA := Encode(content, level, Auto)
+	_, _ = Encode("SOMETHING ELSE 999", (level+1)%4, Auto)
+	_, _ = Encode(contents[(vpConfig("which")+2)%len(contents)], H, Unicode)
+	b, errB := Encode(content, level, Auto)
+	vpAssert(errA == nil && errB == nil, "sample contents are accepted")
+	if errA == nil && errB == nil {
+		vpAssert(a.Bounds() == b.Bounds() && a.Content() == b.Content(), "the same call returns the same barcode whatever was encoded before")
+		if a.Bounds() == b.Bounds() {
+			for x := 0; x < a.Bounds().Dx(); x++ {
+				for y := 0; y < a.Bounds().Dy(); y++ {
+					vpAssert(a.At(x, y) == b.At(x, y), "the same call returns the same pixels whatever was encoded before")
+				}
+			}
+		}
+	}
+	vpAssert(vpGlobalWrites() == 0, "no package-level state is written outside the generator-polynomial cache lock")
+	vpCover("reached", true)
+}
+
+// the shared Reed-Solomon encoder: cache growth happens under its mutex, the mutex is released,
+// results do not depend on what was requested before (concrete data; the real getPolynomial runs)
+func VP_QR_rslock() {
+	d1, d2 := vpConfig("d1"), vpConfig("d2")
+	data := []byte{32, 91, 11, 120, 209, 114, 220, 77, 67, 64, 236, 17, 236, 17, 236, 17}
+	fresh := newErrorCorrection().calcECC(data, byte(d2))
+	vpTrackGlobals()
+	_ = ec.calcECC(data, byte(d1))
+	got := ec.calcECC(data, byte(d2))
+	vpAssert(len(got) == len(fresh), "check codeword count does not depend on history")
+	for i := range got {
+		if i < len(fresh) {
+			vpAssert(got[i] == fresh[i], "check codewords from the shared encoder equal those of a fresh encoder")
+		}
+	}
+	vpAssert(vpGlobalWrites() == 0, "the shared generator cache is only written while its mutex is held")
+	vpCover("reached", true)
 }
